@@ -2,6 +2,7 @@
 //  MODE 1 (range): INSTR(v) with v any 32-bit value (signed decimal spelling): accepted  =>  LO <= v <= HI
 //          (LO/HI: the widest signed/unsigned reading of the instruction's field); for REL forms the
 //          operand is a branch target and the predicate is on the distance.
+//  MODE 3 (sweep, used by C16): any 32-bit operand value: termination, memory safety, a few bytes at most.
 //  MODE 2 (injective): two values v1, v2 in [LO,HI], both accepted, not congruent modulo 2^W  =>  different bytes.
 #include "asmlib.h"
 #ifndef ORG
@@ -35,6 +36,16 @@ extern "C" void harness_main()
 #else
   symx_assert((int64_t)v >= (int64_t)(LO) && (int64_t)v <= (int64_t)(HI), "a value that does not fit the instruction's field is rejected, not masked into it");
 #endif
+#elif MODE == 3
+  // robustness sweep (C16): any 32-bit value in the operand position; the assembler must come back (step budget),
+  // stay inside its objects, and both passes must agree; what it emits is not judged here
+  int32_t v = (int32_t)symx_u32("v");
+  AsmContext *c = new AsmContext();
+  int e = assemble_one(c, v);
+  symx_note("v", (uint32_t)v); symx_note("accepted", e == 0);
+  if (e != 0) { symx_cover("rejected"); return; }
+  symx_cover("accepted");
+  symx_assert(c->memory.high_address < c->memory.low_address || c->memory.high_address - c->memory.low_address < 64, "one instruction emits a few bytes");
 #else
   int32_t v1 = (int32_t)symx_u32("v1"), v2 = (int32_t)symx_u32("v2");
   symx_assume((int64_t)v1 >= (int64_t)(LO) && (int64_t)v1 <= (int64_t)(HI) && (int64_t)v2 >= (int64_t)(LO) && (int64_t)v2 <= (int64_t)(HI));
